@@ -895,7 +895,7 @@ def _monitor_chunk(args):
     signal.signal(signal.SIGALRM, _alarm)
     out = []
     for case in cases:
-        signal.alarm(25)
+        signal.alarm(6)
         try:
             rec, viol = M.run_case(case, Path(tmp))
         except _Timeout:
